@@ -390,9 +390,6 @@ def cellsExplained (cc ac : List Nat) : Nat → List Val → List Val → Option
       let rest := cellsExplained cc ac (i + 1) ss os
       if normCell s == normCell o then rest
       else if cc.contains i && s == .int 0 && (o == .null || o == .int 1) then rest.map ("count-null-group" :: ·)
-      -- MIN over +inf / MAX over -inf: the aggregator starts from f64::MAX / f64::MIN and never replaces it
-      else if (s == .float 9218868437227405312 && o == .float 9218868437227405311) ||
-              (s == .float 18442240474082181120 && o == .float 18442240474082181119) then rest.map ("minmax-float-infinity" :: ·)
       else match s with
         | .int v => if ac.contains i && o == .float (i2fNative v) then rest.map ("groupby-absent-column" :: ·) else none
         | _ => none
@@ -533,11 +530,47 @@ def topNNullableKey (c : Case) (r : Real) : Bool :=
         usesTopN c p && p.any (fun row => row.getD k .null == .null)
   | _ => false
 
+/-- `topn-desc-nullable-string` (C05/C02): one DESC key over a string column with a NULL, in a partition on the top-n path. -/
+def topNDescString (c : Case) (r : Real) : Bool :=
+  match c.order with
+  | [(k, true)] =>
+      (splitRows r.split c.rows).any fun p =>
+        usesTopN c p && p.any (fun row => row.getD k .null == .null) &&
+          p.any (fun row => match row.getD k .null with | .str _ => true | _ => false)
+  | _ => false
+
+/-- `select-i64max-null` (C06): a projected integer equal to i64::MAX (the in-band NULL) is shown as NULL — in every layout.
+    The answer equals the reference once every i64::MAX cell of the reference is read as NULL. -/
+def i64MaxShownNull (c : Case) (r : Real) : Bool :=
+  match c.kind, evalLogicalSel i2fNative (selQ c) c.rows, parseOut r.out with
+  | .sel, .ok s, some out =>
+      s != out && s.map (·.map fun v => if v == .int I64_MAX then .null else v) == out
+  | _, _, _ => false
+
+/-- `null-column-nullable-filter-count` (C02/C03): a selected column that is entirely NULL in a partition (type Null) under a
+    WHERE that is nullable there yields one NULL row per partition row instead of one per passing row: the answer is
+    the reference plus extra rows consisting of NULL cells only. -/
+def nullColumnExtraRows (c : Case) (r : Real) : Bool :=
+  match c.kind, evalLogicalSel i2fNative { selQ c with limit := c.rows.length + 1, offset := 0 } c.rows, parseOut r.out with
+  | .sel, .ok s, some out =>
+      let parts := (splitRows r.split c.rows).filter (fun p => !p.isEmpty)
+      let trigger := (c.exprs.flatMap exprCols).any fun k => parts.any fun p =>
+        p.all (fun row => row.getD k .null == .null) &&
+          ((c.pred.map exprCols).getD []).any (fun w => p.any (fun row => row.getD w .null == .null))
+      trigger && c.limit.isNone && c.offset = 0 &&
+        (match msub out s with
+         | some rest => !rest.isEmpty && rest.all (fun row => row.all (· == .null))
+         | none => false)
+  | _, _, _ => false
+
 def classifyOrdSel (c : Case) (r : Real) (_why : String) : String :=
   let c07 := classifyObs r.obs
   if c07 ≠ "" then c07
   else if c.kind = .ord && topNNullableKey c r && (r.out = "err:canceled" || r.out = "panic") then "topn-nullable-fused"
   else if whereNullPartition c r && (r.out = "err:fatal" || r.out = "err:canceled" || r.out = "panic") then "where-null-partition-empty"
+  else if c.kind = .ord && topNDescString c r && (_why = "wrong-cut" || _why = "unsorted") then "topn-desc-nullable-string"
+  else if i64MaxShownNull c r then "select-i64max-null"
+  else if nullColumnExtraRows c r then "null-column-nullable-filter-count"
   else ""
 
 /-! ### one case -/
